@@ -113,10 +113,37 @@ impl CommandArg {
                 let mut s = a.name.to_string();
                 let op = if a.append { "+=" } else { "=" };
                 s.push_str(op);
-                s.push_str(&escape::quote_if_needed(
-                    a.value.to_string().as_str(),
-                    escape::QuoteMode::SingleQuote,
-                ));
+                match &a.value {
+                    ast::AssignmentValue::Scalar(word) => {
+                        s.push_str(&escape::quote_if_needed(
+                            word.to_string().as_str(),
+                            escape::QuoteMode::SingleQuote,
+                        ));
+                    }
+                    // Quote the elements one by one; quoting the literal as a whole would
+                    // lose the boundaries between elements that contain blanks.
+                    ast::AssignmentValue::Array(elements) => {
+                        s.push('(');
+                        for (i, (key, value)) in elements.iter().enumerate() {
+                            if i > 0 {
+                                s.push(' ');
+                            }
+                            if let Some(key) = key {
+                                s.push('[');
+                                s.push_str(&escape::quote_if_needed(
+                                    key.to_string().as_str(),
+                                    escape::QuoteMode::SingleQuote,
+                                ));
+                                s.push_str("]=");
+                            }
+                            s.push_str(&escape::quote_if_needed(
+                                value.to_string().as_str(),
+                                escape::QuoteMode::SingleQuote,
+                            ));
+                        }
+                        s.push(')');
+                    }
+                }
                 s.into()
             }
         }
